@@ -66,6 +66,7 @@ static void file_to_store (int sid, long pre)
 }
 static int lineno ;
 
+static size_t unhex (const char *s, unsigned char *out, size_t cap) ;
 static uint64_t fnv (uint64_t h, const void *p, size_t n)
 {	const unsigned char *b = p ;
 	for (size_t i = 0 ; i < n ; i++) { h ^= b [i] ; h *= 0x100000001b3ULL ; }
@@ -194,6 +195,77 @@ static int guard_ok (void *ptr, size_t bytes)
 static void guarded_free (void *ptr) { free ((unsigned char *) ptr - GUARD) ; }
 
 static int cmd_id (const char *n) ;
+
+static int nib (char c) { return c >= '0' && c <= '9' ? c - '0' : c >= 'a' && c <= 'f' ? c - 'a' + 10 : c >= 'A' && c <= 'F' ? c - 'A' + 10 : 0 ; }
+static size_t unhex (const char *s, unsigned char *out, size_t cap)
+{	if (! s || s [0] == '-') return 0 ;
+	size_t n = strlen (s) / 2 ; if (n > cap) n = cap ;
+	for (size_t i = 0 ; i < n ; i++) out [i] = (unsigned char) (nib (s [2 * i]) * 16 + nib (s [2 * i + 1])) ;
+	return n ;
+}
+
+/* chunk set <h> <idhex> <datahex>
+   chunk iter <h> <idhex|-> [short]    full iteration (or by id): "n=<count> list=<id>:<size>:<digest>,..." ; with "short" every
+                                        sf_get_chunk_data is also called with datalen = size/2 into an exact-size guarded buffer
+   chunk abandon <h> <idhex> <k>       start an iteration by id, drop it after k steps */
+static void do_chunk (void)
+{	int h = tokll (2) ; const char *sub = toks [1] ;
+	if (! handles [h]) { printf ("%d chunk nohandle=1\n", lineno) ; return ; }
+	if (! strcmp (sub, "set"))
+	{	SF_CHUNK_INFO ci ; memset (&ci, 0, sizeof (ci)) ;
+		unsigned char id [65] ; size_t idn = unhex (toks [3], id, 64) ; id [idn] = 0 ;
+		snprintf (ci.id, sizeof (ci.id), "%s", (char *) id) ; ci.id_size = (unsigned) strlen (ci.id) ;
+		size_t cap = ntok > 4 ? strlen (toks [4]) / 2 + 1 : 1 ; unsigned char *d = malloc (cap) ;
+		ci.datalen = (unsigned) unhex (ntok > 4 ? toks [4] : "-", d, cap) ; ci.data = d ;
+		int r = sf_set_chunk (handles [h], &ci) ;
+		printf ("%d chunk ret=%d", lineno, r) ; pos_fields (h) ; check_invariants (h) ; printf ("\n") ;
+		free (d) ;
+		}
+	else if (! strcmp (sub, "abandon"))
+	{	SF_CHUNK_INFO ci ; memset (&ci, 0, sizeof (ci)) ;
+		unsigned char id [65] ; size_t idn = unhex (toks [3], id, 64) ; id [idn] = 0 ; snprintf (ci.id, sizeof (ci.id), "%s", (char *) id) ; ci.id_size = (unsigned) strlen (ci.id) ;
+		SF_CHUNK_ITERATOR *it = sf_get_chunk_iterator (handles [h], &ci) ; int k = 0 ;
+		for ( ; it && k < tokll (4) ; k++) it = sf_next_chunk_iterator (it) ;
+		printf ("%d chunk steps=%d live=%d\n", lineno, k, it != NULL) ;
+		}
+	else
+	{	SF_CHUNK_INFO q ; memset (&q, 0, sizeof (q)) ; int byid = toks [3][0] != '-' ;
+		if (byid) { unsigned char id [65] ; size_t idn = unhex (toks [3], id, 64) ; id [idn] = 0 ; snprintf (q.id, sizeof (q.id), "%s", (char *) id) ; q.id_size = (unsigned) strlen (q.id) ; }
+		int shortbuf = ntok > 4 && ! strcmp (toks [4], "short") ;
+		SF_CHUNK_ITERATOR *it = sf_get_chunk_iterator (handles [h], byid ? &q : NULL) ;
+		int n = 0, guards = 1, errs = 0 ;
+		printf ("%d chunk list=", lineno) ;
+		for ( ; it && n < 100000 ; n++)
+		{	SF_CHUNK_INFO ci ; memset (&ci, 0, sizeof (ci)) ;
+			if (sf_get_chunk_size (it, &ci) != 0) errs ++ ;
+			unsigned size = ci.datalen ;
+			if (size > (1u << 24))
+			{	/* e.g. the 0xFFFFFFFF placeholder size of an RF64 'data' chunk: report the size only */
+				printf ("%s", n ? "," : "") ; for (unsigned k = 0 ; k < ci.id_size && k < 64 ; k++) printf ("%02x", (unsigned char) ci.id [k]) ;
+				printf (":%u:big", size) ;
+				it = sf_next_chunk_iterator (it) ;
+				continue ;
+				} ;
+			unsigned char *buf = guarded_alloc (size) ;
+			ci.data = buf ;
+			if (sf_get_chunk_data (it, &ci) != 0) errs ++ ;
+			if (! guard_ok (buf, size)) guards = 0 ;
+			printf ("%s", n ? "," : "") ; for (unsigned k = 0 ; k < ci.id_size && k < 64 ; k++) printf ("%02x", (unsigned char) ci.id [k]) ;
+			printf (":%u:%016llx", size, (unsigned long long) fnv (FNV0, buf, size)) ;
+			guarded_free (buf) ;
+			if (shortbuf)
+			{	unsigned half = size / 2 ; unsigned char *b2 = guarded_alloc (half) ;
+				SF_CHUNK_INFO c2 ; memset (&c2, 0, sizeof (c2)) ; c2.datalen = half ; c2.data = b2 ;
+				if (sf_get_chunk_data (it, &c2) != 0) errs ++ ;
+				if (! guard_ok (b2, half)) guards = 0 ;
+				guarded_free (b2) ;
+				} ;
+			it = sf_next_chunk_iterator (it) ;
+			} ;
+		if (n == 0) printf ("-") ;
+		printf (" n=%d guard=%d errs=%d", n, guards, errs) ; pos_fields (h) ; printf ("\n") ;
+		}
+}
 
 static void do_open (void)
 {	int h = tokll (1), sid = tokll (2) ; char mode = toks [3][0] ;
@@ -367,7 +439,7 @@ static void do_store (void)
 	if (! strcmp (op, "clear")) { vio_reset (m) ; }
 	else if (! strcmp (op, "hex"))
 	{	const char *s = ntok > 3 ? toks [3] : "" ; size_t n = strlen (s) / 2 ; unsigned char *b = malloc (n + 1) ;
-		for (size_t i = 0 ; i < n ; i++) { unsigned v ; sscanf (s + 2 * i, "%2x", &v) ; b [i] = v ; }
+		unhex (s, b, n) ;
 		vio_set (m, b, n) ; free (b) ;
 		}
 	else if (! strcmp (op, "copy")) { VIO_MEM *s = &stores [tokll (3)] ; unsigned char *b = malloc (s->len + 1) ; memcpy (b, s->data, s->len) ; vio_set (m, b, s->len) ; free (b) ; }
@@ -377,7 +449,7 @@ static void do_store (void)
 	else if (! strcmp (op, "append"))
 	{	const char *s = ntok > 3 ? toks [3] : "" ; size_t n = strlen (s) / 2 ; unsigned char *b = malloc (m->len + n + 1) ;
 		memcpy (b, m->data, m->len) ;
-		for (size_t i = 0 ; i < n ; i++) { unsigned v ; sscanf (s + 2 * i, "%2x", &v) ; b [m->len + i] = v ; }
+		unhex (s, b + m->len, n) ;
 		vio_set (m, b, m->len + n) ; free (b) ;
 		}
 	else if (! strcmp (op, "dump"))
@@ -431,7 +503,7 @@ static void do_str (void)
 {	int h = tokll (1) ; if (! handles [h]) { printf ("%d str nohandle=1\n", lineno) ; return ; }
 	if (! strcmp (toks [2], "set"))
 	{	const char *s = ntok > 4 ? toks [4] : "" ; size_t n = strlen (s) / 2 ; char *b = malloc (n + 1) ;
-		for (size_t i = 0 ; i < n ; i++) { unsigned v ; sscanf (s + 2 * i, "%2x", &v) ; b [i] = v ; }
+		unhex (s, b, n) ;
 		b [n] = 0 ;
 		int r = sf_set_string (handles [h], tokll (3), b) ; free (b) ;
 		printf ("%d str ret=%d", lineno, r) ; pos_fields (h) ; printf ("\n") ;
@@ -492,6 +564,7 @@ int main (int argc, char **argv)
 		else if (! strcmp (op, "info")) do_info () ;
 		else if (! strcmp (op, "cmd")) do_cmd () ;
 		else if (! strcmp (op, "str")) do_str () ;
+		else if (! strcmp (op, "chunk")) do_chunk () ;
 		else if (! strcmp (op, "state")) { int h = tokll (1) ; if (handles [h]) printf ("%d state dig=%016llx\n", lineno, (unsigned long long) state_digest (h)) ; else printf ("%d state nohandle=1\n", lineno) ; }
 		else if (! strcmp (op, "err"))
 		{	SNDFILE *f = toks [1][0] == '-' ? NULL : handles [tokll (1)] ; const char *e = sf_strerror (f) ;
